@@ -224,16 +224,22 @@ def run_history(ops):
     return dict(trace=trace, results=results, mem=mem, kinds=kinds)
 
 
-def main(payload):
+def main():
+    """results are kept as JSON text: container objects would be tracked by the collector and
+    make every gc.collect() of the later histories slower"""
+    import json
+    import sys
+    payload = json.load(sys.stdin)
     out = []
     for h in payload["histories"]:
         try:
-            out.append(run_history(h))
-        except Exception as e:
+            out.append(json.dumps(run_history(h)))
+        except Exception:
             import traceback
-            out.append(dict(harness_error=traceback.format_exc()[-1500:]))
-    return dict(results=out)
+            out.append(json.dumps(dict(harness_error=traceback.format_exc()[-1500:])))
+    sys.stdout.write('\nRESULT {"results": [' + ", ".join(out) + "]}\n")
+    sys.stdout.flush()
 
 
 if __name__ == "__main__":
-    worker_main(main)
+    main()
